@@ -205,6 +205,8 @@ def random_case(rng, k):
             elif t in ("PWrite", "PAppend"): prims.append((t, rng.choice(names_pool), rng.choice(WORDS)))
             elif t == "PCopy":
                 a, b = rng.sample(names_pool, 2)
+                if a in ("in_b.bin", "deep.dat") and b not in ("in_b.bin", "deep.dat"):
+                    a, b = b, a          # bytes never flow into a file that is printed: captures are text (assumption)
                 prims.append((t, a, b))
             elif t == "PCat": prims.append((t, rng.choice(["in_t.txt", "f1", "f2.txt"])))
             elif t == "PEnv": prims.append((t, rng.choice(ENV_NAMES)))
